@@ -1,5 +1,7 @@
 import KeepVerif.DriverLib
 import KeepVerif.Model.C36
+import KeepVerif.Model.C35Loop
+import KeepVerif.Gen.C36
 open KeepVerif KeepVerif.C36
 
 def canonNat? (s : String) (lo hi : Nat) : Option Nat :=
@@ -64,7 +66,11 @@ def parseObs (s : String) : Option Obs :=
   | [e, c, n] => do pure (← parseErr e, ← parseClaim c, ← n.toNat?)
   | _ => none
 
+def loopConsts : C35Loop.Consts :=
+  ⟨Gen.C36.loopDelayBlocks, Gen.C36.loopActiveBlocks, Gen.C36.loopProtocolBlocks, Gen.C36.loopCoolDownBlocks⟩
+
 def model (line : String) : String :=
+  if C35Loop.isLoopOp line then (if (C35Loop.parseCase line).isSome then "SKIP" else "bad-op") else
   match splitWs line with
   | ["hb", h] =>
     match parseHistory h with
@@ -73,6 +79,7 @@ def model (line : String) : String :=
   | _ => "bad-op"
 
 def monitor (op obs : String) : String :=
+  if C35Loop.isLoopOp op then C35Loop.monitor loopConsts op obs else
   match splitWs op with
   | ["hb", h] =>
     match parseHistory h with
